@@ -849,6 +849,30 @@ void World::opTecmp(const Item& op)
         case 3:  // capture-module status: 36 fixed bytes + n extra
             body = contentBytes(id, 0, wire::TECMP_CM_FIXED + nn);
             wire::wr16(body.data() + 4, static_cast<uint16_t>(24 + nn));
+            {
+                // one serial number in four sits on a DECIMAL or binary boundary (it is rendered as a decimal string): 10^k and
+                // 2^k minus / plus a little, 0, all ones
+                const uint64_t sr = mix64(id * 0x9E3779B97F4A7C15ULL + 31337);
+                if ((sr & 3) == 0 && body.size() >= 12)
+                {
+                    uint64_t v;
+                    if ((sr >> 2) & 1)
+                    {
+                        v = 1;
+                        for (unsigned k = 0; k < 1 + (sr >> 8) % 9; ++k)
+                            v *= 10;
+                    }
+                    else
+                        v = 1ULL << (1 + (sr >> 8) % 32);
+                    const int64_t d = static_cast<int64_t>((sr >> 16) % 41) - 36;  // -36 .. +4
+                    int64_t w = static_cast<int64_t>(v) + d;
+                    if (w < 0)
+                        w = 0;
+                    if (w > 0xFFFFFFFFLL)
+                        w = 0xFFFFFFFFLL;
+                    wire::wr32(body.data() + 8, static_cast<uint32_t>(w));
+                }
+            }
             break;
         case 4:  // bus status: 12 generic bytes + n entries (the device id inside is the header's own in half of the frames, as in real traffic)
             nn = std::min<size_t>(nn, 200);
